@@ -219,6 +219,9 @@ func vGenNamePool(t *rapid.T, wild bool, k int, label string) []string {
 	var out []string
 	for i := 0; len(out) < k; i++ {
 		nm := vGenName(t, wild, fmt.Sprintf("%s%d", label, i))
+		if nm == "h" || nm == "help" { // urfave/cli reads these as its help command when they are an argument
+			nm += "x"
+		}
 		for seen[nm] { // construction, not rejection: make it distinct
 			nm += string(vEdgeASCII[len(out)%len(vEdgeASCII)])
 		}
